@@ -705,6 +705,8 @@ static int applicable (int n, char **t, int *a)
           return 0;
       return 1;
     }
+  if (!strcmp (op, "reclaim"))
+    return n == 1 && lpc_mode;
   if (!strcmp (op, "fefun"))
     return n == 5 && lpc_mode && SL (a[2]) && SL (a[3]) && a[4] >= 0;
   if (!strcmp (op, "frest"))
